@@ -682,3 +682,64 @@ def find_not_included(a: NFA, b: NFA, alphabet: Sequence[str], max_states: int =
         if len(parent) > max_states:
             raise AnalysisError("inclusion product exceeds the state budget")
     return None
+
+
+def group_starts_match(pattern: str, flags: int, name: str) -> Optional[bool]:
+    """True iff in every match of `pattern` in which group `name` participates, the group begins where the match begins -- i.e. every
+    item that precedes it on the way down the syntax tree can only match the empty string (width 0..0: anchors, look-arounds, empty
+    alternatives).  None when the group does not exist.  Syntactic: a preceding item that *can* consume characters counts as "no"."""
+    tree = parse(pattern, flags)
+    gid = tree.state.groupdict.get(name)
+    if gid is None:
+        return None
+
+    def contains(items) -> bool:
+        for op, av in items:
+            o = str(op)
+            if o == "SUBPATTERN":
+                if av[0] == gid or contains(av[3]):
+                    return True
+            elif o == "BRANCH":
+                if any(contains(alt) for alt in av[1]):
+                    return True
+            elif o in ("MAX_REPEAT", "MIN_REPEAT", "POSSESSIVE_REPEAT"):
+                if contains(av[2]):
+                    return True
+            elif o in ("ASSERT", "ASSERT_NOT"):
+                if contains(av[1]):
+                    return True
+            elif o == "ATOMIC_GROUP":
+                if contains(av):
+                    return True
+            elif o == "GROUPREF_EXISTS":
+                if (av[1] is not None and contains(av[1])) or (av[2] is not None and contains(av[2])):
+                    return True
+        return False
+
+    import re._parser as _p
+
+    def empty_only(item) -> bool:
+        sp = _p.SubPattern(tree.state, [item])
+        lo, hi = sp.getwidth()
+        return hi == 0
+
+    def walk(items) -> bool:
+        for i, (op, av) in enumerate(items):
+            if not contains([(op, av)]):
+                continue
+            if not all(empty_only(x) for x in list(items)[:i]):
+                return False
+            o = str(op)
+            if o == "SUBPATTERN":
+                return True if av[0] == gid else walk(av[3])
+            if o == "BRANCH":
+                return all(walk(alt) for alt in av[1] if contains(alt))
+            if o in ("MAX_REPEAT", "MIN_REPEAT", "POSSESSIVE_REPEAT"):
+                # a second iteration would start after the first: only a repeat of at most one iteration keeps the group at the start
+                return av[1] <= 1 and walk(av[2])
+            if o == "ATOMIC_GROUP":
+                return walk(av)
+            return False
+        return False
+
+    return walk(tree)
